@@ -1,0 +1,46 @@
+//go:build verif
+
+package stream
+
+import (
+	"github.com/rulego/streamsql/types"
+)
+
+// Hooks for the external verification harness (build tag verif), property C07
+// (post-aggregation clauses). Exported wrappers only; no existing line is touched.
+
+// VerifBatchRunner feeds complete window batches to the real aggregation path of an
+// unstarted Stream: exactly what the window-output consumer goroutine does for one batch
+// (processWindowBatch: aggregator.Add per row, GetResults incl. post-aggregation,
+// processAggregationResults = DISTINCT, HAVING, ORDER BY, LIMIT, sink dispatch).
+type VerifBatchRunner struct {
+	dp *DataProcessor
+}
+
+// VerifNewBatchRunner initialises the aggregator of s the way DataProcessor.Process does.
+// s must not be started.
+func VerifNewBatchRunner(s *Stream) *VerifBatchRunner {
+	dp := NewDataProcessor(s)
+	dp.initializeAggregator()
+	return &VerifBatchRunner{dp: dp}
+}
+
+// Run applies the window branch of processItem to every row (WHERE filter, group-key
+// expressions) and hands the surviving rows as one batch to processWindowBatch. Results
+// reach the stream's sync sinks before Run returns.
+func (r *VerifBatchRunner) Run(rows []map[string]any) {
+	s := r.dp.stream
+	batch := make([]types.Row, 0, len(rows))
+	for _, d := range rows {
+		if s.filter == nil || s.filter.Evaluate(d) {
+			s.injectGroupKeyExprs(d)
+			batch = append(batch, types.Row{Data: d})
+		}
+	}
+	r.dp.processWindowBatch(batch)
+}
+
+// VerifCompareOrderValues exposes the ORDER BY three-way comparator.
+func VerifCompareOrderValues(a any, aok bool, b any, bok bool) int {
+	return compareOrderValues(a, aok, b, bok)
+}
